@@ -162,3 +162,84 @@ pub fn gen(rng: &mut Rng, n: usize, out: &mut Vec<String>) {
         }
     }
 }
+
+/// Property predicates on the REAL adapters (written from the property text, exact big-integer
+/// arithmetic): an accepted price comes from the configured, correctly owned, verified, fresh account; the
+/// low-biased price is at or below and the high-biased at or above the reported price, by at most 5 %;
+/// a biased price is never negative.
+pub fn monitor(rng: &mut Rng, n: usize, rep: &mut crate::mon::Report) {
+    use num_bigint::BigInt;
+    let mut out = vec![];
+    gen(rng, n, &mut out);
+    let one = BigInt::from(1i128 << 48);
+    for line in out {
+        rep.bump("cases");
+        let (lhs, rhs) = line.split_once(" => ").unwrap();
+        let t: Vec<BigInt> = lhs.split(' ').skip(1).map(|x| x.parse::<BigInt>().unwrap()).collect();
+        let Some(got) = rhs.strip_prefix("ok ") else {
+            rep.bump("refused");
+            continue;
+        };
+        rep.bump("accepted");
+        let got: BigInt = got.parse().unwrap();
+        let (now, age, bias) = (t[0].clone(), t[1].clone(), t[3].clone());
+        let kind = &t[5];
+        let reported: Option<BigInt>; // reported (unbiased) price in I80F48 bits, truncated toward zero
+        if *kind == BigInt::from(1) {
+            let (key_ok, owner_ok, disc_ok, full, publish) = (&t[6], &t[7], &t[8], &t[9], &t[10]);
+            let age_eff = if age == BigInt::from(0) { BigInt::from(60) } else { age.clone() };
+            let mut why = vec![];
+            if *key_ok == BigInt::from(0) { why.push("not the configured oracle account") }
+            if *owner_ok == BigInt::from(0) { why.push("not owned by the Pyth receiver program") }
+            if *disc_ok == BigInt::from(0) { why.push("not a PriceUpdateV2 account") }
+            if *full == BigInt::from(0) { why.push("not fully verified") }
+            if &now - publish > age_eff { why.push("older than the bank's maximum age") }
+            if !why.is_empty() {
+                rep.fail(format!("C09 a Pyth price was ACCEPTED although the account is {}: {}", why.join(", "), lhs));
+            }
+            let tw = t[2] != BigInt::from(0);
+            let raw = if tw { &t[13] } else { &t[11] };
+            let expo: i64 = t[15].to_string().parse().unwrap();
+            let num = raw * &one;
+            reported = Some(if expo >= 0 { num * BigInt::from(10u8).pow(expo as u32) } else {
+                let d = BigInt::from(10u8).pow((-expo) as u32);
+                // truncation toward zero
+                let q = &num / &d;
+                q
+            });
+        } else if *kind == BigInt::from(2) {
+            let (key_ok, owner_ok, last) = (&t[6], &t[7], &t[8]);
+            let mut why = vec![];
+            if *key_ok == BigInt::from(0) { why.push("not the configured oracle account") }
+            if *owner_ok == BigInt::from(0) { why.push("not owned by the Switchboard program") }
+            if &now - last > age { why.push("older than the bank's maximum age") }
+            if !why.is_empty() {
+                rep.fail(format!("C09 a Switchboard price was ACCEPTED although the account is {}: {}", why.join(", "), lhs));
+            }
+            reported = Some((&t[9] * &one) / BigInt::from(10u8).pow(18));
+        } else {
+            if t[6] < BigInt::from(0) {
+                rep.fail(format!("C09 a negative fixed price was ACCEPTED: {}", lhs));
+            }
+            reported = None;
+        }
+        if let Some(p) = reported {
+            let tol = BigInt::from(4); // truncations of the conversion chain, in ulps
+            let five_pct = (&p * BigInt::from(14073748835533i128)) >> 48u32;
+            if bias == BigInt::from(0) {
+                if (&got - &p).magnitude() > tol.magnitude() {
+                    rep.fail(format!("C09 unbiased price {} differs from the reported price {}: {}", got, p, lhs));
+                }
+            } else if bias == BigInt::from(1) {
+                if got > &p + &tol { rep.fail(format!("C09 low-biased price {} ABOVE the reported price {}: {}", got, p, lhs)); }
+                if got < &p - &five_pct - &tol { rep.fail(format!("C09 low-biased price {} more than 5% below the reported price {}: {}", got, p, lhs)); }
+                if got < BigInt::from(0) { rep.fail(format!("C09 negative collateral price {}: {}", got, lhs)); }
+                rep.bump("low");
+            } else {
+                if got < &p - &tol { rep.fail(format!("C09 high-biased price {} BELOW the reported price {}: {}", got, p, lhs)); }
+                if got > &p + &five_pct + &tol { rep.fail(format!("C09 high-biased price {} more than 5% above the reported price {}: {}", got, p, lhs)); }
+                rep.bump("high");
+            }
+        }
+    }
+}
